@@ -51,7 +51,8 @@ def producer_pattern(fx, rep):
                 fr.storev(t['dest'], Agg([], ('vec', 'Vec')))
                 return True
             return bitlin.transfer(I, fr, t, c, pth)
-        I = exp.Interp(fx, 'none', extra_transfer=tr, max_steps=200000)
+        import inline as INL
+        I = exp.Interp(fx, 'none', extra_transfer=tr, max_steps=200000, inline=lambda q_: INL.is_private_helper(fx, q_))
         try:
             res = I.run(p, [Agg([Lin.atom('qx'), Lin.atom('qy'), Int(qzero, 1)])])
         except (exp.NotDerivable, exp.Budget) as e:
